@@ -54,6 +54,8 @@ def _gen(ctx, tier, rng):
     def add(name, ln, a3):
         L.append("ct %s %d %d %d" % (name, ln, a3, rng.randrange(1, 1 << 31)))
     lens = list(range(0, 70)) + [95, 96, 127, 128, 129, 130] if not full else list(range(0, 200))
+    # long operands: across page-sized and larger internal thresholds
+    lens = lens + [1000, 4095, 4096, 4097, 8191, 8192, 8193, 16385, 70000]
     for n in lens:
         for eq in (0, 1, 2, 3):
             add("memcmp", n, eq); add("compare", n, eq)
@@ -68,7 +70,7 @@ def _gen(ctx, tier, rng):
         for bs in (1, 2, 3, 7, 8, 16, 17, 32, 64):
             for _ in range(3):
                 add("unpad", n, bs)
-    for n in (range(0, 50) if not full else range(0, 200)):
+    for n in (list(range(0, 50)) if not full else list(range(0, 200))) + [4096, 4097, 10000, 70000]:
         add("bin2hex", n, 0)
         for v in (1, 3, 5, 7):
             add("bin2b64", n, v)
@@ -83,15 +85,15 @@ def _gen(ctx, tier, rng):
             add("scalar", w, 0)
         for w in range(4):
             add("kx", w, 0)
-    slens = [0, 1, 15, 16, 17, 63, 64, 65, 127, 128, 129, 191, 192, 255, 256, 257, 320, 511, 512, 513, 575, 576, 577, 1023, 1024, 1025, 1100] if not full else list(range(0, 1200, 1))
+    slens = [0, 1, 15, 16, 17, 63, 64, 65, 127, 128, 129, 191, 192, 255, 256, 257, 320, 511, 512, 513, 575, 576, 577, 1023, 1024, 1025, 1100, 4096, 4097, 8193, 70000] if not full else list(range(0, 1200, 1))
     for n in slens:
         for w in range(11):
             add("stream", n, w)
-    hlens = [0, 1, 15, 16, 17, 31, 32, 33, 55, 56, 57, 63, 64, 65, 111, 112, 113, 119, 120, 127, 128, 129, 255, 256, 257, 300] if not full else list(range(0, 400))
+    hlens = [0, 1, 15, 16, 17, 31, 32, 33, 55, 56, 57, 63, 64, 65, 111, 112, 113, 119, 120, 127, 128, 129, 255, 256, 257, 300, 4096, 4097, 20000] if not full else list(range(0, 400)) + [4096, 4097, 20000, 70000]
     for n in hlens:
         for w in range(18):
             add("hash", n, w)
-    alens = [0, 1, 15, 16, 17, 31, 32, 33, 63, 64, 65, 127, 128, 129, 255, 256, 257, 300, 511, 512, 513, 600] if not full else list(range(0, 700))
+    alens = [0, 1, 15, 16, 17, 31, 32, 33, 63, 64, 65, 127, 128, 129, 255, 256, 257, 300, 511, 512, 513, 600, 4096, 4097, 20000] if not full else list(range(0, 700)) + [4096, 4097, 20000, 70000]
     for n in alens:
         for w in range(12):
             add("aead", n, w)
